@@ -15,6 +15,8 @@ func main() {
 		runC11(f)
 	case "C07":
 		runC07(f)
+	case "C17":
+		runC17(f)
 	default:
 		fmt.Fprintln(os.Stderr, "h-set: unknown property", f.Prop)
 		os.Exit(2)
